@@ -375,6 +375,12 @@ func (st *State) assumeLoaded(t types.Type, v Val) {
 		st.assume(Implies(app(SBool, "(_ is iref)", v.T), Not(Eq(app(SRef, "pref", v.T), TNull))))
 	}
 	switch types.Unalias(t).Underlying().(type) {
+	case *types.Interface:
+		if v.K == VTerm && v.T.Sort == SIface {
+			// a pointer held by an interface value that already exists points to an allocated object
+			p := app(SRef, "pref", v.T)
+			st.assume(Implies(app(SBool, "(_ is iref)", v.T), Or(Eq(p, TNull), st.isAlloc(p))))
+		}
 	case *types.Pointer, *types.Map:
 		if v.K == VTerm && v.T.Sort == SRef {
 			st.assume(Or(Eq(v.T, TNull), st.isAlloc(v.T)))
